@@ -31,7 +31,8 @@ def cases(draw):
         ts = [t0 + draw(st.integers(0, 16 * 40)) * P / 16 for _ in range(n)]
         return {"t": ts, "P": P, "P_unit": "d", "t_ref": "explicit", "t_ref_val": t0,
                 "n_bins": draw(st.sampled_from([2, 4, 8, 16, 3, 5])), "perm_seed": draw(st.integers(0, 10**6)), "mode": mode,
-                "clean": draw(st.sampled_from([True, True, False])), "presorted": draw(st.booleans())}
+                "clean": draw(st.sampled_from([True, True, False])), "presorted": draw(st.booleans()),
+            "t_ref_scale": draw(st.sampled_from(["tcb", "utc", "tt"]))}
     nper = draw(gens.logfloat(1e-2, 1e4))
     if mode == "random":
         ts = [t0 + draw(gens.fl(0, nper * P)) for _ in range(n)]
@@ -48,7 +49,8 @@ def cases(draw):
             # an explicit reference epoch before, inside or after the observed baseline
             "t_ref_val": t0 + draw(st.one_of(gens.fl(-3, 0), gens.fl(0, 1).map(lambda x: x * nper), gens.fl(1, 1.5).map(lambda x: x * nper))) * P,
             "n_bins": draw(st.integers(1, 50)), "perm_seed": draw(st.integers(0, 10**6)), "mode": mode,
-            "clean": draw(st.sampled_from([True, True, False])), "presorted": draw(st.booleans())}
+            "clean": draw(st.sampled_from([True, True, False])), "presorted": draw(st.booleans()),
+            "t_ref_scale": draw(st.sampled_from(["tcb", "utc", "tt"]))}
 
 
 def _f(x):
@@ -76,6 +78,8 @@ def make(case, t, t_ref_val):
     kw = {}
     if case["t_ref"] == "explicit":
         kw["t_ref"] = Time(t_ref_val, format="mjd", scale="tcb")
+        if case.get("t_ref_scale", "tcb") != "tcb":
+            kw["t_ref"] = getattr(kw["t_ref"], case["t_ref_scale"])     # the same instant, quoted on another time scale
     n = len(t)
     if not case.get("clean", True):
         kw["clean"] = False     # documented option: no filtering of non-finite values (there are none here)
